@@ -145,6 +145,14 @@ def make(interp):
         from ..interp import elem
         shape = tuple(shape) if isinstance(shape, (tuple, list)) else (shape,)
         return SArr(shape, lambda idx: elem(x, tuple(idx)))
+    def average(a, axis=None, weights=None):
+        """jnp.average: mean, or sum(w*a)/sum(w) with weights (the weights are NORMALISED by their sum)"""
+        if axis is not None: raise Unsupported("average with axis")
+        a = A.from_value(a)
+        if weights is None: num, den = A.asum(a), A.prod(list(a.shape))
+        else: num, den = A.dot(A.reshape(a, (-1,)) if a.ndim != 1 else a, A.reshape(A.from_value(weights), (-1,)) if A.from_value(weights).ndim != 1 else A.from_value(weights)), A.asum(A.from_value(weights))
+        return interp.binop("Div", num, den)
+    jnp["average"] = B(average, "jnp.average")
     jnp["broadcast_to"] = B(broadcast_to)
     jnp["ravel_multi_index"] = B(ravel_multi_index); jnp["unravel_index"] = B(unravel_index); jnp["argsort"] = B(argsort)
     def product(*ranges):
